@@ -51,7 +51,7 @@ var c15HdrSingles = []string{"server", "etag", "x-frame-options", "date", "x-req
 var c15HdrMultis = []string{"set-cookie", "vary", "link", "via", "warning", "cache-control", "x-multi", "www-authenticate", "accept-ranges"}
 var c15HdrCTs = []string{"text/plain; charset=gbk", "text/html; charset=windows-1252", "application/json; charset=utf-16le", "text/html; charset=utf-8",
 	"image/png; charset=gbk", "text/csv; charset=big5", "text/html", "application/octet-stream", "text/html; charset=x-unknown", "text/xml;charset=SHIFT_JIS",
-	"application/json", "text/plain; charset=\"koi8-r\"", "text/html; charset=iso-8859-1", "text/html; charset=euc-kr", "text/plain; charset=utf-16be"}
+	"application/json", "text/plain; charset=\"koi8-r\"", "text/html; charset=iso-8859-1", "text/html; charset=euc-kr", "text/plain; charset=utf-16be", "text/html; charset=utf-7", "text/plain; charset=UTF-32"}
 
 func c15HdrMixCase(r *rand.Rand, name string) string {
 	switch r.Intn(4) {
@@ -504,7 +504,7 @@ func (p *c15HdrPeers) serveH3(conn quic.Connection) {
 func TestVerif_C15_hdrs(t *testing.T) {
 	s := verifh.New(t, "C15", "hdrs",
 		"responses whose header block is generated FIELD BY FIELD in wire order: 0..19 single-valued headers, 0..9 multi-valued headers (set-cookie, vary, link, via, warning, cache-control, … 2..4 values each), "+
-			"occasionally 60..150 more fields, 0..3 Content-Type fields (15 values: charsets gbk windows-1252 utf-16le/be big5 shift_jis koi8-r euc-kr utf-8 unknown none, selected and unselected media types), "+
+			"occasionally 60..150 more fields, 0..3 Content-Type fields (17 values: charsets gbk windows-1252 utf-16le/be big5 shift_jis koi8-r euc-kr utf-8 unknown none, selected and unselected media types), "+
 			"rarely a response Accept-Encoding, all in a random interleaving (so values of a repeated header straddle Content-Type and each other); mixed-case names on HTTP/1.1. Body: 0..300 bytes of legacy-charset "+
 			"text without markup/BOM. Paths: (unit) the HTTP/1.1 header reader newTextprotoReader.ReadMIMEHeader + Transport.autoDecodeResponseBody; (h1) raw TCP peer; (h2) frame-level peer on x/net/http2 Framer+hpack "+
 			"(h2c); (h3) frame-level peer on raw quic-go streams + qpack — real Client, one long-lived client per protocol, settings (default / list / all / disable / custom) changed between requests. Model: "+
